@@ -102,12 +102,12 @@ impl Ctx {
     }
 
     pub fn check(&mut self, clause: &str, ok: bool, detail: impl FnOnce() -> String) {
+        if self.abort {
+            return;
+        }
         match self.clause_counts.iter_mut().find(|(c, _)| c == clause) {
             Some((_, n)) => *n += 1,
             None => self.clause_counts.push((clause.to_string(), 1)),
-        }
-        if self.abort {
-            return;
         }
         if !ok {
             self.n_failures += 1;
